@@ -307,12 +307,16 @@ DENSITY_CLASSES = {
     'E': ['-7.8', '-7.80'],
     'F': ['0.0602', '0.06020'],
     'G': ['-1.5', '-1.50'],
+    # numerically different values that agree to six significant digits: never one composition
+    'H': ['-0.9982071', '-0.99820710'], 'H2': ['-0.9982074'],
+    'I': ['6.022141-2', '6.022141e-2'], 'I2': ['6.022142-2', '6.022142E-2'],
 }
 
 
 def decorate_materials(deck, rng, classes_for=None, spellings='all'):
     """Give every non-filled cell a material (0, 1, 2) and a density spelling."""
-    classes_for = classes_for or {1: [rng.choice(['A', 'A2']), 'B', 'G'], 2: ['C', 'E', 'F', 'B']}     # B: shared by both materials
+    classes_for = classes_for or {1: [rng.choice(['A', 'A2']), 'B', 'G', 'H', 'H2'],
+                                  2: ['C', 'E', 'F', 'B', 'I', 'I2']}     # B: shared by both materials
     values = []
     for c in deck['cells']:
         if c['fill'] or (c['lat'] and c['lunivs']):
